@@ -1,0 +1,178 @@
+//go:build verif
+
+package tlv
+
+// Contracts for gvc (contract-based deductive verification, see /verif/DESIGN.md).
+// Comment-only file, compiled only under the build tag "verif".
+//
+// BER identifier and length octets (X.690 §8.1.2, §8.1.3) as spec functions over a byte
+// sequence s (the remaining input): tagLenS / beN give the identifier, lenLenS / lenValS the length.
+
+//@ spec func beN(s seq, n int) int {
+//@     n == 1 ? s[0] : (n == 2 ? s[0]*256 + s[1] : (n == 3 ? s[0]*65536 + s[1]*256 + s[2]
+//@   : s[0]*16777216 + s[1]*65536 + s[2]*256 + s[3])) }
+//@ spec func tagLenS(s seq) int {
+//@     s[0] % 32 != 31 ? 1 : (s[1] < 128 ? 2 : (s[2] < 128 ? 3 : (s[3] < 128 ? 4 : 5))) }
+//@ spec func lenLenS(s seq) int { s[0] <= 128 ? 1 : s[0] - 127 }
+//@ spec func lenValS(s seq) int { s[0] <= 127 ? s[0] : (s[0] == 128 ? 0 - 1 : beN(s[1:], s[0] - 128)) }
+//@ spec func firstOctet(t int) int { t < 256 ? t : (t < 65536 ? t / 256 : (t < 16777216 ? t / 65536 : t / 16777216)) }
+//@ spec func tagEncS(t int) seq {
+//@     t < 1 ? seq(0) : (t < 256 ? seq(t) : (t < 65536 ? seq(t / 256, t % 256)
+//@   : (t < 16777216 ? seq(t / 65536, (t / 256) % 256, t % 256)
+//@   : seq(t / 16777216, (t / 65536) % 256, (t / 256) % 256, t % 256)))) }
+//@ spec func lenEncS(n int) seq {
+//@     n == 0 - 1 ? seq(128) : (n <= 127 ? seq(n) : (n <= 255 ? seq(129, n)
+//@   : (n <= 65535 ? seq(130, n / 256, n % 256)
+//@   : (n <= 16777215 ? seq(131, n / 65536, (n / 256) % 256, n % 256)
+//@   : seq(132, n / 16777216, (n / 65536) % 256, (n / 256) % 256, n % 256))))) }
+
+// Canonical encodings decode to themselves (round trip over the spec).
+//@ lemma length_roundtrip: forall n :: 0 - 1 <= n && n <= 4294967295 ==> lenValS(lenEncS(n)) == n && lenLenS(lenEncS(n)) == len(lenEncS(n))
+//@   props C16
+//@ lemma tag_roundtrip: forall t :: 1 <= t && t <= 4294967295 && tagLenS(tagEncS(t)) == len(tagEncS(t)) ==> beN(tagEncS(t), len(tagEncS(t))) == t
+//@   props C16
+
+//@ invariant errStartOfStreamEOF != nil
+
+//@ func ParseTag
+//@   props C16 C12 C13
+//@   requires r != nil
+//@   ensures "ber-identifier": err == nil ==> 1 <= tagLenS(old(rd(r))) && tagLenS(old(rd(r))) <= 4
+//@              && len(old(rd(r))) >= tagLenS(old(rd(r)))
+//@              && result0 == beN(old(rd(r)), tagLenS(old(rd(r))))
+//@   ensures "consumes-identifier": err == nil ==> len(rd(r)) == len(old(rd(r))) - tagLenS(old(rd(r)))
+//@              && rd(r) === old(rd(r))[tagLenS(old(rd(r))):]
+//@   ensures err != nil ==> result0 == 0
+//@   loop 1 invariant 1 <= len(old(rd(r))) - len(rd(r)) && len(old(rd(r))) - len(rd(r)) <= 4
+//@   loop 1 invariant tag == beN(old(rd(r)), len(old(rd(r))) - len(rd(r)))
+//@   loop 1 invariant rd(r) === old(rd(r))[len(old(rd(r))) - len(rd(r)):]
+//@   loop 1 invariant old(rd(r))[0] % 32 == 31
+//@   loop 1 invariant forall i :: 1 <= i && i < len(old(rd(r))) - len(rd(r)) ==> old(rd(r))[i] >= 128
+//@   loop 1 decreases len(rd(r))
+//@   assigns r
+//@   safety all
+
+//@ func ParseLength
+//@   props C16 C12 C13
+//@   requires r != nil
+//@   ensures "ber-length": err == nil ==> len(old(rd(r))) >= lenLenS(old(rd(r))) && old(rd(r))[0] <= 132
+//@              && length == lenValS(old(rd(r)))
+//@   ensures "consumes-length": err == nil ==> len(rd(r)) == len(old(rd(r))) - lenLenS(old(rd(r)))
+//@              && rd(r) === old(rd(r))[lenLenS(old(rd(r))):]
+//@   ensures "range": err == nil ==> 0 - 1 <= length && length <= 4294967295
+//@   ensures err != nil ==> length == 0
+//@   assigns r
+//@   safety all
+
+//@ func ParseTagAndLength
+//@   props C16 C12 C13
+//@   requires r != nil
+//@   ensures "header": err == nil ==> 1 <= tagLenS(old(rd(r))) && tagLenS(old(rd(r))) <= 4
+//@              && tag == beN(old(rd(r)), tagLenS(old(rd(r))))
+//@              && length == lenValS(old(rd(r))[tagLenS(old(rd(r))):])
+//@              && len(old(rd(r))) >= tagLenS(old(rd(r))) + lenLenS(old(rd(r))[tagLenS(old(rd(r))):])
+//@   ensures "consumes-header": err == nil ==> len(rd(r)) == len(old(rd(r))) - tagLenS(old(rd(r))) - lenLenS(old(rd(r))[tagLenS(old(rd(r))):])
+//@              && rd(r) === old(rd(r))[tagLenS(old(rd(r))) + lenLenS(old(rd(r))[tagLenS(old(rd(r))):]):]
+//@   ensures "range": err == nil ==> 0 - 1 <= length && length <= 4294967295
+//@   ensures err != nil ==> tag == 0 && length == 0
+//@   assigns r
+//@   safety all
+
+//@ func (tag TlvTag) Encode
+//@   props C16 C12 C10
+//@   ensures "minimal-identifier": result === tagEncS(tag)
+//@   assigns nothing
+//@   safety all
+
+//@ func (length TlvLength) Encode
+//@   props C16 C12 C10
+//@   requires 0 - 1 <= length && length <= 4294967295
+//@   ensures "minimal-length": result === lenEncS(length)
+//@   assigns nothing
+//@   safety all
+
+//@ func (tag TlvTag) IsConstructed
+//@   props C16 C12
+//@   ensures "bit6-of-first-octet": result == (tag >= 1 && (firstOctet(tag) / 32) % 2 == 1)
+//@   loop 1 invariant tmp >= 1 && tmp <= tag && firstOctet(tmp) == firstOctet(tag)
+//@   loop 1 decreases tmp
+//@   pure
+//@   safety all
+
+//@ func Unwrap
+//@   props C16 C12
+//@   ensures "exact-tlv": err == nil ==> tag == beN(data, tagLenS(data))
+//@              && lenValS(data[tagLenS(data):]) == len(value)
+//@              && len(data) == tagLenS(data) + lenLenS(data[tagLenS(data):]) + len(value)
+//@              && value === data[tagLenS(data) + lenLenS(data[tagLenS(data):]):]
+//@   ensures err != nil ==> value == nil && tag == 0
+//@   assigns nothing
+//@   safety all
+
+//@ func UnwrapTag
+//@   props C16 C12
+//@   ensures "tag-checked": err == nil ==> tag == beN(data, tagLenS(data))
+//@              && len(data) == tagLenS(data) + lenLenS(data[tagLenS(data):]) + len(value)
+//@              && value === data[tagLenS(data) + lenLenS(data[tagLenS(data):]):]
+//@   ensures err != nil ==> value == nil
+//@   assigns nothing
+//@   safety all
+
+//@ func NewTlvSimpleNode
+//@   props C16
+//@   ensures result != nil && fresh(result) && result.tag == tag && result.value === value && len(result.value) == len(value)
+//@   assigns nothing
+//@   safety all
+
+//@ func (node TlvSimpleNode) Encode
+//@   props C16 C10
+//@   requires len(node.value) <= 4294967295
+//@   ensures "tlv": result === cat(tagEncS(node.tag), lenEncS(len(node.value)), node.value)
+//@   assigns nothing
+//@   safety all
+
+// Depth and element limits: the recursion is only ever re-entered one level deeper with the shared
+// counter (Decode would restart both), so depth > 50 or more than 10000 elements are refused.
+// tlvConsumed(nodes) is a ghost attribute of a freshly decoded node list: the number of input bytes
+// the decoder consumed to produce it (defined by decodeFromBuffer, used by Decode).
+//@ uf tlvConsumed(ref) int
+//@ func decodeFromBuffer
+//@   props C16 C12
+//@   defines err == nil ==> tlvConsumed(nodes) == len(old(rd(buf))) - len(rd(buf))
+//@   ensures err == nil ==> fresh(nodes)
+//@   requires buf != nil && nodeCount != nil && 0 <= depth
+//@   requires 0 <= *nodeCount && *nodeCount <= 10000
+//@   ensures "depth-limit": depth > 50 ==> err != nil
+//@   ensures "count-limit": err == nil ==> old(*nodeCount) <= *nodeCount && *nodeCount <= 10000
+//@   ensures "count-monotone": old(*nodeCount) <= *nodeCount
+//@   ensures err == nil ==> nodes != nil
+//@   ensures err != nil ==> nodes == nil
+//@   ensures "consumes-forward": err == nil ==> len(rd(buf)) <= len(old(rd(buf)))
+//@   decreases 52 - depth
+//@   forbids Decode MustDecode
+//@   assigns buf, nodeCount
+//@   loop 1 invariant nodes != nil && fresh(nodes) && (ref(nodes.nodes) == 0 || ref(nodes.nodes) > ref(nodes)) && old(*nodeCount) <= *nodeCount && *nodeCount <= 10000 && len(rd(buf)) <= len(old(rd(buf)))
+//@   safety all
+
+//@ func Decode
+//@   props C16 C12
+//@   ensures "all-bytes-consumed": err == nil ==> tlvConsumed(nodes) == len(data)
+//@   ensures err == nil ==> nodes != nil
+//@   ensures err != nil ==> nodes == nil
+//@   safety all
+
+//@ func (nodes *TlvNodes) AddNode
+//@   props C16 C12
+//@   requires nodes != nil
+//@   ensures "appends-at-most-one": len(nodes.nodes) == old(len(nodes.nodes)) || len(nodes.nodes) == old(len(nodes.nodes)) + 1
+//@   ensures "same-or-fresh-array": ref(nodes.nodes) == old(ref(nodes.nodes)) || fresh(nodes.nodes)
+//@   assigns nodes.nodes, content(nodes.nodes)
+//@   safety all
+
+//@ func (nodes *TlvNodes) AddNodes
+//@   props C16 C12
+//@   requires nodes != nil
+//@   ensures "same-or-fresh-array": ref(nodes.nodes) == old(ref(nodes.nodes)) || fresh(nodes.nodes)
+//@   loop 1 invariant ref(nodes.nodes) == old(ref(nodes.nodes)) || fresh(nodes.nodes)
+//@   assigns nodes.nodes, content(nodes.nodes)
+//@   safety all
